@@ -28,7 +28,8 @@ RULE = ("Problems are built from a Hypothesis-drawn seed: r=1-8 unknowns, n=1-5 
         "gradients); discarded and counted when the recomputed cond(U) > 30; "
         "M = U(x*+d) + noise with x* >= 0 having a drawn fraction of zeros and d <= 0 pulling those entries negative "
         "so constraints are active; cold start and warm starts (positive / sparse / zero / exact solution / truth); "
-        "sparsity and ridge coefficients k/16 in (0,1]. Solvers run to convergence (hals 3000-6000 sweeps tol=1e-24, "
+        "sparsity and ridge coefficients k/16 in (0,1], in 1/3 of the ridge cases a ridge of 0.25 / 1 / 4 times "
+        "lambda_max(UtU) (strong relative to the spectrum). Solvers run to convergence (hals 3000-6000 sweeps tol=1e-24, "
         "fista 5000-12000 iterations tol=0, active_set 500); a case failing its clause is re-run once with 4x the "
         "iterations before being reported (slow convergence is not a violation, a wrong fixed point is). Oracle: KKT "
         "certificate at 1e-7*(1+max|UtM|), objective within 1e-8 relative of scipy.optimize.nnls on the augmented "
@@ -112,16 +113,30 @@ def _problem(draw, vector=False):
 _coef = st.integers(1, 16).map(lambda k: k / 16.0)
 
 
-def _pen(draw, variant):
-    """(sparsity, ridge) as passed to the solver (None = argument omitted / None)"""
-    sp = rd = None
-    if variant in ("l1", "l1ridge") or (variant == "pen" and draw(st.booleans())):
+def _pen(draw, variant, seed):
+    """(sparsity, ridge, ridge_rel).  ridge_rel = c means 'ridge = c * lambda_max(UtU)' (a ridge that is strong relative to
+    the spectrum; resolved in the oracle by _with_rd).  The penalty kind of the 'pen' variant and the strong-ridge class are
+    functions of the drawn problem seed: Hypothesis' boolean draws cover such small option spaces very unevenly
+    (seed-independence pass: 'pen' was ridge-only in 83 % of the cases)."""
+    sp = rd = rel = None
+    if variant == "pen":
+        variant = ["l1", "ridge", "l1ridge"][seed % 3]
+    if variant in ("l1", "l1ridge"):
         sp = draw(_coef)
-    if variant in ("ridge", "l1ridge") or (variant == "pen" and (sp is None or draw(st.booleans()))):
+    if variant in ("ridge", "l1ridge"):
         rd = draw(_coef)
+        if (seed // 3) % 3 == 0:
+            rel = [0.25, 1.0, 4.0][(seed // 9) % 3]
     if variant == "plain" and draw(st.integers(0, 3)) == 0:
         sp = 0.0   # an explicit zero coefficient is the same problem
-    return sp, rd
+    return sp, rd, rel
+
+
+def _with_rd(case, G):
+    """resolve a spectrum-relative ridge coefficient into the number handed to the solver"""
+    if case.get("rd_rel") is None or case.get("rd") is None:
+        return case
+    return dict(case, rd=float(case["rd_rel"]) * float(np.linalg.eigvalsh(G)[-1]))
 
 
 def _warm(kind, case, r, n, xref, floor=0.0):
@@ -239,8 +254,7 @@ def _hals_case(variant, init, zero_init=False, eps=False):
         c = draw(_problem())
         if zero_init:
             c["zero_init"] = True
-        sp, rd = _pen(draw, variant)
-        c["sp"], c["rd"] = sp, rd
+        c["sp"], c["rd"], c["rd_rel"] = _pen(draw, variant, c["seed"])
         c["warm"] = None if init == "cold" else draw(st.sampled_from(["pos", "sparse", "zeros", "solution", "big"]))
         if init == "any":
             c["warm"] = draw(st.sampled_from([None, "pos", "sparse"]))
@@ -278,6 +292,8 @@ def _hals_run(case, G, B, xref, its):
 def o_hals(group):
     def oracle(case):
         U, M, cond, G, B, sp, rd = _hals_setup(case)
+        case = _with_rd(case, G)
+        rd = 0.0 if case["rd"] is None else case["rd"]
         xref, gref = ref_nnls(U, M, sp, rd)
         its = 600 if cond <= 5 else 1500 if cond <= 10 else 3000 if cond <= 20 else 6000
         eps = case.get("eps") or 0.0
@@ -288,7 +304,7 @@ def o_hals(group):
         extra = _with_retry(lambda n: _hals_run(case, G, B, xref, n), its, ver)
         if case.get("zero_init"):
             extra.append("zero_default_init=" + str(bool((np.clip(np.linalg.solve(G, B), 0, None) == 0).all())))
-        return _labels(case, cond, xref, gref, extra + [f"warm={case['warm']}", f"pen={'l1' if sp else ''}{'ridge' if rd else ''}"])
+        return _labels(case, cond, xref, gref, extra + [f"warm={case['warm']}", f"pen={'l1' if sp else ''}{'ridge' if rd else ''}", f"ridge_rel={case.get('rd_rel')}"])
     return oracle
 
 
@@ -299,7 +315,7 @@ def _fista_case(variant, init):
     @st.composite
     def s(draw):
         c = draw(_problem())
-        c["sp"], c["rd"] = _pen(draw, variant)
+        c["sp"], c["rd"], c["rd_rel"] = _pen(draw, variant, c["seed"])
         c["warm"] = None if init == "cold" else draw(st.sampled_from(["pos", "sparse", "zeros", "solution", "big"]))
         c["eps"] = draw(st.sampled_from([None, None, 0.0]))       # None = default 1e-8
         c["lr"] = draw(st.sampled_from(["default", "default", "given"]))
@@ -337,6 +353,7 @@ def o_fista(group):
     def oracle(case):
         U, M, cond = build(case)
         G, B = U.T @ U, U.T @ M
+        case = _with_rd(case, G)
         sp = 0.0 if case["sp"] is None else case["sp"]
         rd = 0.0 if case["rd"] is None else case["rd"]
         xref, gref = ref_nnls(U, M, sp, rd)
@@ -350,7 +367,7 @@ def o_fista(group):
             ver = lambda x: vs_ref(x, xref, U, G, B, M, sp, rd, "fista", extra_obj=slack)
         extra = _with_retry(lambda n: _fista_run(case, G, B, xref, n), its, ver)
         return _labels(case, cond, xref, gref, extra + [f"warm={case['warm']}", f"eps={case['eps']}", f"lr={case['lr']}",
-                                                       f"vec={case['vec']}", f"pen={'l1' if sp else ''}{'ridge' if rd else ''}"])
+                                                       f"vec={case['vec']}", f"pen={'l1' if sp else ''}{'ridge' if rd else ''}", f"ridge_rel={case.get('rd_rel')}"])
     return oracle
 
 
@@ -366,7 +383,7 @@ def _fista_kron_case(draw):
          "warm": draw(st.sampled_from([None, "pos", "sparse"]))}
     c["m1"] = c["r1"] + draw(st.integers(0, 3))
     c["m2"] = c["r2"] + draw(st.integers(0, 3))
-    c["sp"], c["rd"] = _pen(draw, draw(st.sampled_from(["plain", "pen"])))
+    c["sp"], c["rd"], c["rd_rel"] = _pen(draw, ["plain", "pen"][(c["seed"] // 27) % 2], c["seed"])
     return c
 
 
@@ -386,6 +403,7 @@ def o_fista_kron(case):
         discard("cond(U)>30")
     G1, G2 = U1.T @ U1, U2.T @ U2
     B = U1.T @ M @ U2
+    case = _with_rd(case, UK.T @ UK)
     sp = 0.0 if case["sp"] is None else case["sp"]
     rd = 0.0 if case["rd"] is None else case["rd"]
     xref, gref = ref_nnls(UK, M.reshape(-1, 1), sp, rd)
@@ -495,6 +513,7 @@ def o_resolve(solver):
     def oracle(case):
         U, M, cond = build(case)
         G, B = U.T @ U, U.T @ M
+        case = _with_rd(case, G)
         sp = 0.0 if case.get("sp") is None else case["sp"]
         rd = 0.0 if case.get("rd") is None else case["rd"]
         xref, gref = ref_nnls(U, M, sp, rd)
@@ -537,7 +556,7 @@ def o_resolve(solver):
 def _resolve_case(draw, vector=False):
     c = draw(_problem(vector=vector))
     c["kappa"] = min(c["kappa"], 10.0)          # two solves per case: keep them short
-    c["sp"], c["rd"] = (None, None) if vector else _pen(draw, "pen")
+    c["sp"], c["rd"], c["rd_rel"] = (None, None, None) if vector else _pen(draw, "pen", c["seed"])
     return c
 
 
